@@ -14,7 +14,7 @@ import (
 func init() {
 	register(Property{
 		ID:          "C03",
-		Explanation: "Decided statically: R1 every LocalNameOf(p) in the naming system is dominated by an AddType on the same tracker for the same package path (no qualifier is printed for an unregistered package); R2 the import block is printed from the very tracker the file's namer registers into (single-store field, same field load at both ends) and the printer emits one line per key with the name from the same map, without mutating it; R3 registration happens only in the namer (and std's init, on another tracker) and is always followed by the LocalNameOf whose result is printed; R4 the two tracker maps are written only in one function, only on the absent edge of both lookups (a binding is never overwritten, a name never bound to two paths), and never deleted from; R5 the name committed is dominated by token.IsIdentifier(name) == true (valid, non-keyword); R6 every normal return of the storing function passes the 'already bound' edge or the store (a name is always committed); R7 each registration is dominated by the path differing from the namer's own package path, which InitWith binds to the target package's path. R8 no Frag/IsNil method of pkg/gengo/snippet writes its receiver or other non-local memory (a snippet that memoised what a first rendering resolved would skip the registration when rendered into another file). R2 also: every iteration of the printing loop emits exactly one `name \"path\"` line (a path written without the tracker's name is bound under the package's declared name); R9 every name the namer hands out went through the argument rewriter, which is what registers the packages of a generic instantiation's type arguments. R10 the body buffer of a generated file is only written to, measured and finally read (never truncated or reset: the tracker cannot forget a package); R11 no string constant of the printers spells a qualified identifier; R12 in the value and type printers the text of every registering call reaches the function's result on every path (followed through its holders; empty-holder edges and counted writes are understood). R13 textual references are split into package path and name at the last dot (C15.R3); R14 template arguments are rendered at their placeholders only (C09.R3). R15 every nested package path of a generic instantiation is blanked or registered and rewritten (C15.R4); R16 the identifier snippet writes a string as it is only on the edge on which ParseRef failed. R17 types.Ref stores its path and name unchanged and Pkg()/Name() answer them; R18 = C10.R14 (value literals are written from the printer's own renderings). NOT decided: that the rendered body really uses every registered name (a caller may discard a rendered fragment); termination of the candidate search is argued, not proven. Round 8: R19 = C11.R7 (the printers keep no memo: every rendering of a type goes through the namer); R20 import-name candidates are made of the path's own segments (no constant text is spliced into a candidate: `_` is an identifier and names nothing).",
+		Explanation: "Decided statically: R1 every LocalNameOf(p) in the naming system is dominated by an AddType on the same tracker for the same package path (no qualifier is printed for an unregistered package); R2 the import block is printed from the very tracker the file's namer registers into (single-store field, same field load at both ends) and the printer emits one line per key with the name from the same map, without mutating it; R3 registration happens only in the namer (and std's init, on another tracker) and is always followed by the LocalNameOf whose result is printed; R4 the two tracker maps are written only in one function, only on the absent edge of both lookups (a binding is never overwritten, a name never bound to two paths), and never deleted from; R5 the name committed is dominated by token.IsIdentifier(name) == true (valid, non-keyword); R6 every normal return of the storing function passes the 'already bound' edge or the store (a name is always committed); R7 each registration is dominated by the path differing from the namer's own package path, which InitWith binds to the target package's path. R8 no Frag/IsNil method of pkg/gengo/snippet writes its receiver or other non-local memory (a snippet that memoised what a first rendering resolved would skip the registration when rendered into another file). R2 also: every iteration of the printing loop emits exactly one `name \"path\"` line (a path written without the tracker's name is bound under the package's declared name); R9 every name the namer hands out went through the argument rewriter, which is what registers the packages of a generic instantiation's type arguments. R10 the body buffer of a generated file is only written to, measured and finally read (never truncated or reset: the tracker cannot forget a package); R11 no string constant of the printers spells a qualified identifier; R12 in the value and type printers the text of every registering call reaches the function's result on every path (followed through its holders; empty-holder edges and counted writes are understood). R13 textual references are split into package path and name at the last dot (C15.R3); R14 template arguments are rendered at their placeholders only (C09.R3). R15 every nested package path of a generic instantiation is blanked or registered and rewritten (C15.R4); R16 the identifier snippet writes a string as it is only on the edge on which ParseRef failed. R17 types.Ref stores its path and name unchanged and Pkg()/Name() answer them; R18 = C10.R14 (value literals are written from the printer's own renderings). NOT decided: that the rendered body really uses every registered name (a caller may discard a rendered fragment); termination of the candidate search is argued, not proven. Round 8: R19 = C11.R7 (the printers keep no memo: every rendering of a type goes through the namer); R20 import-name candidates are made of the path's own segments (no constant text is spliced into a candidate: `_` is an identifier and names nothing). Round 9: R21 every return of the printer's Name is the namer's answer for the reference it was given.",
 		Assumptions: commonAssumptions,
 		Run:         runC03,
 	})
